@@ -13,7 +13,8 @@ from mc import common as C
 
 PROPERTY = "C04"
 RULE = ("unit line: full product L x all 2^L patterns x order x periodic x restrict2valid x cell; "
-        "unit embed: full product ndim x axis x L x all 2^L base patterns x order x periodic. "
+        "unit embed: full product ndim x axis x L x all 2^L base patterns x order x periodic; unit reuse: L x order x periodic x "
+        "restrict2valid x route by which validity / values are changed between two diff calls on the same object x ndim. "
         "An execution is non-trivial when at least one oracle comparison ran.")
 ASSUMPTIONS = [
     "scope: line length <= 8 (quick) / 13 (thorough); n-D embedding L <= 4 / 6 with 2 cells on the other axes",
@@ -212,6 +213,20 @@ def unit_line(ctx):
         if np.any(np.abs(got - exp) > rel * s):
             ctx.fail(f"diff/value-type/{kind}", f"{kind}-typed values {vals[:, 0].tolist()}: D(f)={got.tolist()} expected "
                      f"{exp.tolist()} (from the impulse responses)", instance=inst)
+    # (ix) a large constant added to the data does not change the derivative (linearity + D(const) = 0 on every run /
+    # ring): the variation may be tiny RELATIVE to the values (1e6 + x, 1e7 + x^2)
+    big = np.stack([1e6 + mono[1], 1e7 + mono[2], -3e5 + comb], axis=1)
+    fb = _build(L, valid, cs, periodic, big)
+    ctx.step(1, "diff of data with a large constant offset")
+    gb = fb.diff("x", order=order, restrict2valid=restrict).array
+    for c, v in enumerate((mono[1], mono[2], comb)):
+        exp = M @ v
+        s = (np.abs(M) @ np.abs(big[:, c])).max() + 1e-300   # rounding of the large values enters with |M|
+        ctx.check()
+        if np.any(np.abs(gb[:, c] - exp) > 1e-12 * s + rel * (np.abs(M) @ np.abs(v)).max()):
+            ctx.fail("diff/not-linear/large-constant-offset",
+                     f"D(c + g) differs from D(g) for c={big[0, c] - v[0]:g}: {gb[:, c].tolist()} vs {exp.tolist()}", instance=inst)
+            break
     # (vi) restrict2valid=False == all-valid pattern (bit for bit), validity kept
     if not restrict and not all(valid):
         g = _build(L, [True] * L, cs, periodic, probes)
@@ -325,10 +340,57 @@ def unit_embed(ctx):
                          f"line {lidx} comp {comp} pattern {linepat[lidx]:b}: got {got.tolist()} 1-D gives {exp.tolist()}")
                 return
 
+def unit_reuse(ctx):
+    """Non-initial states: the SAME field object is differentiated, then its validity or its values are changed through
+    every public route (valid setter, in-place writes into field.valid / field.array, array setter), then it is
+    differentiated again with the same arguments.  The second result must be the derivative of the field as it is now:
+    equal to what a fresh field with the current values and validity gives."""
+    L = ctx.choose("L", [4, 6, 7])
+    order = ctx.choose("order", [1, 2])
+    periodic = ctx.choose("periodic", [False, True])
+    restrict = ctx.choose("restrict2valid", [True, False])
+    change = ctx.choose("change", ["valid = new mask", "valid[...] in place", "array[...] in place", "array = new", "nothing"])
+    nd = ctx.choose("ndim", [1, 2])
+    pat0 = (1 << L) - 1
+    valid0 = [True] * L
+    valid1 = [bool((0b1011011 >> i) & 1) for i in range(L)]   # runs of length 2, 2, 1 ...
+    probes = np.stack([C.tracer((L,), 1, ctx.seed)[:, 0], (np.arange(L) + 0.25) ** 2], axis=1)
+    if nd == 1:
+        f = _build(L, valid0, 0.5, periodic, probes)
+        mk = lambda v, a: _build(L, v, 0.5, periodic, a)  # noqa: E731
+    else:
+        mesh = df.Mesh(p1=(0.0, -1.0), p2=(0.5 * L, 1.0), n=(L, 2), bc="x" if periodic else "")
+        arr2 = np.stack([probes, probes[::-1] * 2.0], axis=1)
+        f = df.Field(mesh, nvdim=2, value=arr2, valid=np.stack([valid0, valid0], axis=1))
+        mk = lambda v, a: df.Field(mesh, nvdim=2, value=a, valid=v)  # noqa: E731
+    inst = ctx.key()
+    ctx.step(1, "first diff")
+    f.diff("x", order=order, restrict2valid=restrict)
+    newv = np.array(valid1) if nd == 1 else np.stack([valid1, valid1[::-1]], axis=1)
+    if change == "valid = new mask":
+        f.valid = newv.copy()
+    elif change == "valid[...] in place":
+        f.valid[...] = newv
+    elif change == "array[...] in place":
+        f.array[...] = f.array[::-1] * 3.0 + 1.0
+    elif change == "array = new":
+        f.array = (f.array[::-1] * 3.0 + 1.0).copy()
+    ctx.step(2, f"{change}; second diff; diff of a fresh field with the current state")
+    again = f.diff("x", order=order, restrict2valid=restrict)
+    fresh = mk(np.array(f.valid), np.array(f.array)).diff("x", order=order, restrict2valid=restrict)
+    ctx.observe(np.round(again.array, 9))
+    ctx.check(2)
+    if not C.same_bytes(again.array, fresh.array):
+        ctx.fail("diff/reuse/second-call-differs-from-fresh-field", f"after '{change}': {again.array.ravel().tolist()[:10]} "
+                 f"but a fresh field with the same values and validity gives {fresh.array.ravel().tolist()[:10]}", instance=inst)
+    if not np.array_equal(again.valid, f.valid):
+        ctx.fail("diff/reuse/validity-of-result-is-not-the-current-validity", f"after '{change}'", instance=inst)
+
 
 def units(tier):
     return [
         {"name": "line", "fn": unit_line, "bound": None},
         {"name": "embed", "fn": unit_embed, "bound": None},
         {"name": "keyword_bc", "fn": unit_keyword_bc, "bound": None},
+        {"name": "reuse", "fn": unit_reuse, "bound": None},
     ]
